@@ -259,6 +259,7 @@ var _ *openfgav1.Userset
 
 //@ func (*WeightedAuthorizationModelGraph).fixDependantNodesWeight
 //@   props C04 C11
+//@   closed_alloc
 //@   -- (only compares strings, but is verified with native strings: an opaque_strings callee of a native caller in the same govc run
 //@   --  makes the engine panic "Havoc of unregistered component E$OStr.")
 //@   requires wg != nil && wg.nodes[nodeCycle] != nil && wfDeps(wg, tupleCycleDependencies[nodeCycle]) && sepWildcards()
@@ -266,6 +267,8 @@ var _ *openfgav1.Userset
 //@   requires weightsInRange(wg.nodes[nodeCycle].weights)
 //@   requires forall j int :: 0 <= j && j < len(tupleCycleDependencies[nodeCycle]) ==> weightsInRange(wg.nodes[tupleCycleDependencies[nodeCycle][j].from.uniqueLabel].weights)
 //@   ensures separated: sepWildcards()
+//@   ensures range_e: old(inRangeE()) ==> inRangeE()
+//@   ensures range_n: old(inRangeN()) ==> inRangeN()
 //@   ensures dependants_substituted: forall n *WeightedAuthorizationModelNode, k string :: old(allocated(n)) && old(isDependantNode(wg, tupleCycleDependencies[nodeCycle], len(tupleCycleDependencies[nodeCycle]), n))
 //@                              ==> (has(n.weights, k) <==> old(substHas(n.weights, referenceNodeID, wg.nodes[nodeCycle].weights, k)))
 //@   ensures no_placeholder_left: forall n *WeightedAuthorizationModelNode :: old(allocated(n)) && old(isDependantNode(wg, tupleCycleDependencies[nodeCycle], len(tupleCycleDependencies[nodeCycle]), n))
@@ -282,6 +285,7 @@ var _ *openfgav1.Userset
 //@   ensures others_untouched: forall n *WeightedAuthorizationModelNode :: old(allocated(n)) && !old(isDependantNode(wg, tupleCycleDependencies[nodeCycle], len(tupleCycleDependencies[nodeCycle]), n))
 //@                              ==> n.weights == old(n.weights) && n.wildcards == old(n.wildcards)
 //@   ensures in_range: forall n *WeightedAuthorizationModelNode :: old(allocated(n)) && old(isDependantNode(wg, tupleCycleDependencies[nodeCycle], len(tupleCycleDependencies[nodeCycle]), n)) ==> weightsInRange(n.weights)
+//@   loop 1 invariant range_n: old(inRangeN()) ==> (forall n *WeightedAuthorizationModelNode :: old(allocated(n)) ==> weightsInRange(n.weights))
 //@   loop 1 invariant sepWildcards()
 //@   loop 1 invariant weightsInRange(wg.nodes[nodeCycle].weights)
 //@   loop 1 invariant forall j int :: 0 <= j && j < len(tupleCycleDependencies[nodeCycle]) ==> weightsInRange(wg.nodes[tupleCycleDependencies[nodeCycle][j].from.uniqueLabel].weights)
@@ -329,6 +333,7 @@ var _ *openfgav1.Userset
 
 //@ func (*WeightedAuthorizationModelGraph).fixDependantEdgesWeight
 //@   props C04 C11
+//@   closed_alloc
 //@   requires wg != nil && wg.nodes[nodeCycle] != nil && tupleCycleDependencies != nil && wfEdges(tupleCycleDependencies[nodeCycle]) && sepWildcards() && sepDeps(tupleCycleDependencies)
 //@   requires no_self_reference: !has(wg.nodes[nodeCycle].weights, referenceNodeID) && referenceNodeID == "R#" + nodeCycle
 //@   requires weightsInRange(wg.nodes[nodeCycle].weights)
@@ -347,10 +352,20 @@ var _ *openfgav1.Userset
 //@                              ==> e.weights == old(e.weights) && e.wildcards == old(e.wildcards)
 //@   ensures deps_kept: tupleCycleDependencies[nodeCycle] == old(tupleCycleDependencies[nodeCycle]) && (forall j int :: 0 <= j && j < len(tupleCycleDependencies[nodeCycle]) ==> tupleCycleDependencies[nodeCycle][j] == old(tupleCycleDependencies[nodeCycle][j]))
 //@   ensures deps_separated: sepDeps(tupleCycleDependencies)
+//@   ensures graph_elems_kept: old(sepED(wg, tupleCycleDependencies)) && wg.edges != tupleCycleDependencies ==> (forall k string, i int :: 0 <= i && i < len(wg.edges[k]) ==> wg.edges[k][i] == old(wg.edges[k][i]))
+//@   ensures foreign_kept: forall s []*WeightedAuthorizationModelEdge, i int :: isold(s) && arr(s) != 0 && (forall b string :: arr(s) != arr(old(tupleCycleDependencies[b]))) ==> s[i] == old(s[i])
+//@   ensures foreign: forall s []*WeightedAuthorizationModelEdge :: isold(s) && arr(s) != 0 && (forall b string :: arr(s) != arr(old(tupleCycleDependencies[b]))) ==> (forall a string :: arr(s) != arr(tupleCycleDependencies[a]))
+//@   ensures range_e: old(inRangeE()) ==> inRangeE()
+//@   ensures range_n: old(inRangeN()) ==> inRangeN()
 //@   ensures edge_lists_kept: wg.edges != tupleCycleDependencies ==> (forall k string :: wg.edges[k] == old(wg.edges[k]))
 //@   ensures in_range: forall j int :: 0 <= j && j < len(tupleCycleDependencies[nodeCycle]) ==> weightsInRange(tupleCycleDependencies[nodeCycle][j].weights)
 //@   ensures old_maps_untouched: forall m map[string]int, k string :: old(allocated(m)) ==> has(m, k) == old(has(m, k)) && m[k] == old(m[k])
 //@   loop 1 invariant edge_lists_kept: wg.edges != tupleCycleDependencies ==> (forall k string :: wg.edges[k] == old(wg.edges[k]))
+//@   loop 1 invariant range_e: old(inRangeE()) ==> (forall e *WeightedAuthorizationModelEdge :: old(allocated(e)) ==> weightsInRange(e.weights))
+//@   loop 1 invariant foreign: forall s []*WeightedAuthorizationModelEdge :: isold(s) && arr(s) != 0 && (forall b string :: arr(s) != arr(old(tupleCycleDependencies[b]))) ==> (forall a string :: arr(s) != arr(tupleCycleDependencies[a]))
+//@   loop 1 invariant foreign_kept: forall s []*WeightedAuthorizationModelEdge, i int :: isold(s) && arr(s) != 0 && (forall b string :: arr(s) != arr(old(tupleCycleDependencies[b]))) ==> s[i] == old(s[i])
+//@   loop 1 invariant graph_elems_kept: old(sepED(wg, tupleCycleDependencies)) && wg.edges != tupleCycleDependencies ==> (forall k string, i int :: 0 <= i && i < len(wg.edges[k]) ==> wg.edges[k][i] == old(wg.edges[k][i]))
+//@   loop {lab} invariant sep_ed: old(sepED(wg, tupleCycleDependencies)) && wg.edges != tupleCycleDependencies ==> sepED(wg, tupleCycleDependencies)
 //@   loop 1 invariant sepWildcards() && sepDeps(tupleCycleDependencies)
 //@   loop 1 invariant closed_deps: forall a string :: arr(tupleCycleDependencies[a]) == 0 || allocated(arr(tupleCycleDependencies[a]))
 //@   loop 1 invariant no_self: !has(wg.nodes[nodeCycle].weights, referenceNodeID)
@@ -373,6 +388,10 @@ var _ *openfgav1.Userset
 //@   loop 1 invariant forall e *WeightedAuthorizationModelEdge :: old(allocated(e)) && !isDependantEdge(tupleCycleDependencies[nodeCycle], $i, e) ==> e.weights == old(e.weights) && e.wildcards == old(e.wildcards)
 //@   loop 1 invariant forall m map[string]int, k string :: old(allocated(m)) ==> has(m, k) == old(has(m, k)) && m[k] == old(m[k])
 //@   loop 1.1 invariant edge_lists_kept: wg.edges != tupleCycleDependencies ==> (forall k string :: wg.edges[k] == old(wg.edges[k]))
+//@   loop 1.1 invariant foreign: forall s []*WeightedAuthorizationModelEdge :: isold(s) && arr(s) != 0 && (forall b string :: arr(s) != arr(old(tupleCycleDependencies[b]))) ==> (forall a string :: arr(s) != arr(tupleCycleDependencies[a]))
+//@   loop 1.1 invariant foreign_kept: forall s []*WeightedAuthorizationModelEdge, i int :: isold(s) && arr(s) != 0 && (forall b string :: arr(s) != arr(old(tupleCycleDependencies[b]))) ==> s[i] == old(s[i])
+//@   loop 1.1 invariant graph_elems_kept: old(sepED(wg, tupleCycleDependencies)) && wg.edges != tupleCycleDependencies ==> (forall k string, i int :: 0 <= i && i < len(wg.edges[k]) ==> wg.edges[k][i] == old(wg.edges[k][i]))
+//@   loop {lab} invariant sep_ed: old(sepED(wg, tupleCycleDependencies)) && wg.edges != tupleCycleDependencies ==> sepED(wg, tupleCycleDependencies)
 //@   loop 1.1 invariant sep_w: sepWildcards()
 //@   loop 1.1 invariant sep_d: sepDeps(tupleCycleDependencies)
 //@   loop 1.1 invariant deps_header: tupleCycleDependencies[nodeCycle] == old(tupleCycleDependencies[nodeCycle])
@@ -387,6 +406,10 @@ var _ *openfgav1.Userset
 //@   loop 1.1 invariant forall k string :: $visited[referenceNodeID] && has(wg.nodes[nodeCycle].weights, k) ==> wg.nodes[nodeCycle].weights[k] <= edgeWeights[k]
 //@   loop 1.1 invariant forall k string :: has(edgeWeights, k) ==> ($visited[k] && k != referenceNodeID && edgeWeights[k] == edge.weights[k]) || ($visited[referenceNodeID] && has(wg.nodes[nodeCycle].weights, k) && edgeWeights[k] == wg.nodes[nodeCycle].weights[k])
 //@   loop 1.1.1 invariant edge_lists_kept: wg.edges != tupleCycleDependencies ==> (forall k string :: wg.edges[k] == old(wg.edges[k]))
+//@   loop 1.1.1 invariant foreign: forall s []*WeightedAuthorizationModelEdge :: isold(s) && arr(s) != 0 && (forall b string :: arr(s) != arr(old(tupleCycleDependencies[b]))) ==> (forall a string :: arr(s) != arr(tupleCycleDependencies[a]))
+//@   loop 1.1.1 invariant foreign_kept: forall s []*WeightedAuthorizationModelEdge, i int :: isold(s) && arr(s) != 0 && (forall b string :: arr(s) != arr(old(tupleCycleDependencies[b]))) ==> s[i] == old(s[i])
+//@   loop 1.1.1 invariant graph_elems_kept: old(sepED(wg, tupleCycleDependencies)) && wg.edges != tupleCycleDependencies ==> (forall k string, i int :: 0 <= i && i < len(wg.edges[k]) ==> wg.edges[k][i] == old(wg.edges[k][i]))
+//@   loop {lab} invariant sep_ed: old(sepED(wg, tupleCycleDependencies)) && wg.edges != tupleCycleDependencies ==> sepED(wg, tupleCycleDependencies)
 //@   loop 1.1.1 invariant sep_w: sepWildcards()
 //@   loop 1.1.1 invariant sep_d: sepDeps(tupleCycleDependencies)
 //@   loop 1.1.1 invariant deps_header: tupleCycleDependencies[nodeCycle] == old(tupleCycleDependencies[nodeCycle])
@@ -408,6 +431,7 @@ var _ *openfgav1.Userset
 
 //@ func (*WeightedAuthorizationModelGraph).calculateNodeWeightAndFixDependencies
 //@   props C04 C05 C11
+//@   closed_alloc
 //@   requires wg != nil && wg.nodes[nodeID] != nil && wfEdges(wg.edges[nodeID]) && tupleCycleDependencies != nil
 //@   requires wfDeps(wg, tupleCycleDependencies[nodeID]) && sepWildcards() && sepDeps(tupleCycleDependencies)
 //@   requires forall e *WeightedAuthorizationModelEdge :: allocated(e) ==> weightsInRange(e.weights)
@@ -425,6 +449,12 @@ var _ *openfgav1.Userset
 //@                              <==> (k != "R#" + nodeID && (exists i int :: 0 <= i && i < len(old(wg.edges[nodeID])) && has(old(old(wg.edges[nodeID])[i].weights), k))))
 //@   ensures all_infinite: err == nil ==> (forall k string :: has(old(wg.nodes[nodeID]).weights, k) ==> old(wg.nodes[nodeID]).weights[k] == Infinite)
 //@   ensures dependencies_resolved: err == nil ==> !has(tupleCycleDependencies, nodeID)
+//@   ensures range_e: err == nil ==> inRangeE()
+//@   ensures range_n: err == nil ==> inRangeN()
+//@   ensures deps_sep: sepDeps(tupleCycleDependencies)
+//@   ensures graph_elems_kept: old(sepED(wg, tupleCycleDependencies)) && wg.edges != tupleCycleDependencies ==> (forall k string, i int :: 0 <= i && i < len(wg.edges[k]) ==> wg.edges[k][i] == old(wg.edges[k][i]))
+//@   ensures foreign_kept: forall s []*WeightedAuthorizationModelEdge, i int :: isold(s) && arr(s) != 0 && (forall b string :: arr(s) != arr(old(tupleCycleDependencies[b]))) ==> s[i] == old(s[i])
+//@   ensures foreign: forall s []*WeightedAuthorizationModelEdge :: isold(s) && arr(s) != 0 && (forall b string :: arr(s) != arr(old(tupleCycleDependencies[b]))) ==> (forall a string :: arr(s) != arr(tupleCycleDependencies[a]))
 //@   ensures edge_lists_kept: wg.edges != tupleCycleDependencies ==> (forall k string :: wg.edges[k] == old(wg.edges[k]))
 //@   ensures separated: sepWildcards()
 //@   ensures error_changes_nothing: err != nil ==> (forall n *WeightedAuthorizationModelNode :: old(allocated(n)) ==> n.weights == old(n.weights))
@@ -459,16 +489,17 @@ var _ *openfgav1.Userset
 //@   -- (calculateNodeWeight, AssignWeights) are proved relative to them. What the code does to these structures: node/edge weight maps are
 //@   -- replaced by fresh maps with values in range, wildcard lists grow through the separated helpers, dependency lists are appended to
 //@   -- or deleted, nothing else is written.
-//@   assumes inv_linked: linked(wg)
+//@   ensures graph_elems_kept: forall k string, i int :: 0 <= i && i < len(wg.edges[k]) ==> wg.edges[k][i] == old(wg.edges[k][i])
+//@   ensures inv_linked: linked(wg)
 //@   ensures inv_wild: sepWildcards()
 //@   assumes inv_deps_wf: err == nil ==> depsWf(wg, tupleCycleDependencies)
-//@   assumes inv_deps_sep: err == nil ==> sepDeps(tupleCycleDependencies)
-//@   assumes inv_deps_ed: err == nil ==> sepED(wg, tupleCycleDependencies)
-//@   assumes inv_range_e: err == nil ==> inRangeE()
-//@   assumes inv_range_n: err == nil ==> inRangeN()
+//@   ensures inv_deps_sep: err == nil ==> sepDeps(tupleCycleDependencies)
+//@   ensures inv_deps_ed: err == nil ==> sepED(wg, tupleCycleDependencies)
+//@   ensures inv_range_e: err == nil ==> inRangeE()
+//@   ensures inv_range_n: err == nil ==> inRangeN()
 //@   ensures edge_lists_kept: forall k string :: wg.edges[k] == old(wg.edges[k])
-//@   assumes edge_arrays_kept: forall s []*WeightedAuthorizationModelEdge, i int :: isold(s) && (forall a string :: arr(s) != arr(old(tupleCycleDependencies[a]))) ==> s[i] == old(s[i])
-//@   assumes foreign_arrays_stay_foreign: forall s []*WeightedAuthorizationModelEdge :: isold(s) && (forall b string :: arr(s) != arr(old(tupleCycleDependencies[b]))) ==> (forall a string :: arr(s) != arr(tupleCycleDependencies[a]))
+//@   ensures edge_arrays_kept: forall s []*WeightedAuthorizationModelEdge, i int :: isold(s) && arr(s) != 0 && (forall b string :: arr(s) != arr(old(tupleCycleDependencies[b]))) ==> s[i] == old(s[i])
+//@   ensures foreign_arrays_stay_foreign: forall s []*WeightedAuthorizationModelEdge :: isold(s) && arr(s) != 0 && (forall b string :: arr(s) != arr(old(tupleCycleDependencies[b]))) ==> (forall a string :: arr(s) != arr(tupleCycleDependencies[a]))
 //@   -- ENGINE LIMITATION: the two clauses error_is_sentinel and constraint_on_cycle_rejected need the package-initialisation fact
 //@   -- wraps(ErrContrainstTupleCycle, ErrTupleCycle) (var ErrContrainstTupleCycle = fmt.Errorf("%w: ...", ErrTupleCycle)). The engine models the
 //@   -- variable like errors.New (wraps(ErrContrainstTupleCycle, q) <==> q == ErrContrainstTupleCycle), so both stay unproved and a
@@ -584,7 +615,8 @@ var _ *openfgav1.Userset
 //@   ite(d.GetRelationOrWildcard() == nil, d.GetType(), ite(d.GetWildcard() != nil, d.GetType() + ":*", d.GetType() + "#" + d.GetRelation()))
 
 //@ func (*WeightedAuthorizationModelGraphBuilder).parseThis
-//@   props C10 C05 C11 C13
+//@   -- (C04: the weights are those of the true maximum depth only if every restriction / parent type has its edge)
+//@   props C10 C05 C11 C13 C04
 //@   requires wg != nil && wg.nodes != nil && wg.edges != nil && wfNodes(wg)
 //@   requires parent_in_graph: parentNode != nil && wg.nodes[parentNode.uniqueLabel] == parentNode
 //@   requires parent_list_wf: wfEdgeList(wg.edges[parentNode.uniqueLabel])
@@ -626,7 +658,7 @@ var _ *openfgav1.Userset
 //@ spec ttuLabel(typeDef *openfgav1.TypeDefinition, rw *openfgav1.TupleToUserset) string = typeDef.GetType() + "#" + ttuTupleset(rw)
 
 //@ func (*WeightedAuthorizationModelGraphBuilder).parseTupleToUserset
-//@   props C10 C05 C13
+//@   props C10 C05 C13 C04
 //@   requires wg != nil && wg.nodes != nil && wg.edges != nil && wfNodes(wg)
 //@   requires parent_in_graph: parentNode != nil && wg.nodes[parentNode.uniqueLabel] == parentNode
 //@   requires parent_list_wf: wfEdgeList(wg.edges[parentNode.uniqueLabel])
